@@ -14,7 +14,7 @@ PROPS = {
         'design_ref': 'DESIGN.md section 7.6',
     },
     'C01': {
-        'families': ['contracts.rebuild', 'contracts.native'],
+        'families': ['contracts.rebuild', 'contracts.dbstate', 'contracts.native'],
         'level': 'proof',
         'technique': 'contract-based deductive verification of the rebuild plan and column clauses; bounded native stand-in for the schema comparison',
         'text': 'Deductive: column set/order and copy plan of a rebuilt table (to_sql prefix) and build_column_schema flag contract '
@@ -38,7 +38,7 @@ PROPS = {
         'not_decided': ['renames of M2M tables and model renames: one-line ALTER TABLE RENAME statements (bounded native only)'],
     },
     'C14': {
-        'families': ['contracts.execution', 'contracts.native'],
+        'families': ['contracts.execution', 'contracts.batches', 'contracts.native'],
         'level': 'other',
         'technique': 'bounded native run of the preview/determinism contract (stand-in; order-insensitivity obligations in progress)',
         'text': 'evolve --sql preview compared statement by statement with the --execute trace, and --sql/--hint output compared across '
